@@ -83,7 +83,7 @@ def rse(rng, nd, dtype="bool"):
 
 
 def rlabels(rng, shape, nlab=4, dtype=None):
-    dt = dtype or rng.choice(["int32", "int64", "uint8", "uint16", "intc", "int16"])
+    dt = dtype or rng.choice(["int32", "int64", "uint8", "uint16", "intc", "intc", "intc", "int16"])   # intc: what label() returns
     n = int(np.prod(shape))
     labs = [0, 0] + [rng.randint(1, nlab + 2) for _ in range(nlab)]
     return A(dt, shape, [rng.choice(labs) for _ in range(n)])
@@ -281,8 +281,15 @@ def g_float2_even(rng):
     return [A(dt, sh, rvals(rng, dt, sh[0] * sh[1], 0, 9))], {}
 
 
+def g_wav(rng):
+    # odd lengths are accepted by the transforms (the unpaired last sample is dropped): part of the domain for safety/determinism
+    sh = [rng.choice([1, 2, 3, 4, 5, 6, 7, 8, 9, 10]), rng.choice([1, 2, 3, 4, 5, 6, 7, 8, 9, 10])]
+    dt = rng.choice(FLT_DT + ["int32", "uint8"])
+    return [A(dt, sh, rvals(rng, dt, sh[0] * sh[1], 0, 9))], {}
+
+
 def g_daub(rng):
-    a, _ = g_float2_even(rng)
+    a, _ = g_wav(rng)
     return a + ["D%d" % rng.choice(range(2, 21, 2))], {}
 
 
@@ -445,7 +452,7 @@ def g_edge(rng):
 
 def g_filter_labeled(rng):
     l = rlabels(rng, rshape(rng, 2))
-    return [l], {"remove_bordering": rng.random() < 0.5, "min_size": rng.choice([None, 2]), "max_size": rng.choice([None, 5])}
+    return [l], {"remove_bordering": rng.random() < 0.35, "min_size": rng.choice([None, 2, 3]), "max_size": rng.choice([None, 5])}
 
 
 def g_remove_bordering(rng):
@@ -588,7 +595,7 @@ REG = [
     E("polygon.convexhull", g_bool2big), E("polygon.fill_convexhull", g_bool2big),
     E("otsu", g_uint_img_z), E("rc", g_uint_img_z, float_out=True),
     E("thresholding.bernsen", g_bernsen), E("thresholding.gbernsen", g_gbernsen), E("thresholding.soft_threshold", g_soft),
-    E("haar", g_float2_even, float_out=True), E("ihaar", g_float2_even, float_out=True),
+    E("haar", g_wav, float_out=True), E("ihaar", g_wav, float_out=True),
     E("daubechies", g_daub, float_out=True), E("idaubechies", g_daub, float_out=True),
     E("wavelet_center", g_wc, float_out=True),
     E("interpolate.shift", g_shift, gil=True, float_out=True), E("interpolate.zoom", g_zoom, gil=True, float_out=True),
